@@ -7,15 +7,14 @@ BASE = "cd /repo && /venv/bin/python -m pytest -ra -q -p no:cacheprovider --time
 
 ALL = ["C%02d" % i for i in range(1, 21)]
 
-# id -> (technique, level text, level note, design ref)
-CLAIMED = {
-    "C06": (
-        "Coq proof by induction over modes/cutoff (binomial identities, enumeration = index inverse) + exact differential tie of the Gallina model to piquasso via vm_compute",
-        "Full: Props/C06.v proves for every d, cutoff and occupation vector that the model's basis lists each valid vector exactly once in the documented order, that the index of the i-th vector is i and basis[index v] = v, that comb is the binomial coefficient with exact divisions, that the dimension formulas equal the enumeration size and that the vectorised int32/int64 index cannot overflow while the index fits 32 bits. The model is tied to the code by running both on every (d,c) of the tier's range, on random large and many-mode vectors and on every fermionic basis vector (exact comparison).",
-        "Trusted: Coq kernel; the hand-written model (Comb/FockModel.v, Comb/FermiModel.v) is tied to the code only by the differential run; the iterative `partitions` walk is compared with the recursive spec by evaluation, not by a theorem; the fermionic functions are modelled and tied, their theorems are not yet written; numba code generation.",
-        "DESIGN.md section 4, C06",
-    ),
-}
+# each claimed property has harness/props/cxx.manifest.json: technique, text, note, design_ref
+CLAIMED = {}
+for _p in ALL:
+    _f = os.path.join(VERIF, "harness", "props", _p.lower() + ".manifest.json")
+    if os.path.exists(_f) and os.path.exists(os.path.join(VERIF, "harness", "props", _p.lower() + ".py")):
+        _m = json.load(open(_f))
+        if _m.get("claimed", True):
+            CLAIMED[_p] = (_m["technique"], _m["text"], _m["note"], _m.get("design_ref", "DESIGN.md section 4, " + _p))
 
 REASON_NOT_YET = "check not built yet in this round (see DESIGN.md section 7 for the construction order)"
 
